@@ -211,8 +211,11 @@ func runC05(r *vf.Run) {
 		d.Index()
 		return d
 	}})
+	cases = append(cases, c5{id: "concat", crafted: true, ds: func(rng *rand.Rand) *gen.Dataset {
+		return gen.MakeDataset(rng, "concat", gen.DatasetOpts{Rows: 400, Concat: true, WithUnique: true})
+	}})
 	lrng := r.RNG("case-list")
-	for i := 0; i < r.Pick(12, 80); i++ {
+	for i := 0; i < r.Pick(30, 150); i++ {
 		id := fmt.Sprintf("rnd%03d", i)
 		var n int
 		switch lrng.Intn(4) {
